@@ -711,7 +711,12 @@ fn encode_genotype(genotype: &dyn Genotype) -> io::Result<Vec<i8>> {
             let i = i8::try_from(position)
                 .map_err(|e| io::Error::new(io::ErrorKind::InvalidData, e))?;
 
-            (i + 1) << 1
+            // `i + 1` overflows for the largest position.
+            let j = i.checked_add(1).ok_or_else(|| {
+                io::Error::new(io::ErrorKind::InvalidData, "invalid allele position")
+            })?;
+
+            j << 1
         } else {
             0
         };
